@@ -60,7 +60,7 @@ inductive RetSig where
 structure Reply (V : Type) where
   signature : Option (List Char)
   body : Option (List V)
-  deriving Repr
+  deriving DecidableEq, Repr
 
 /-- Result of `_cbCvtReply`. -/
 inductive Cvt (V : Type) where
@@ -71,7 +71,7 @@ inductive Cvt (V : Type) where
   | remoteError (errName : List Char)
   /-- `msg.signature[0]` on `None` (TypeError) or on `''` (IndexError) -/
   | pyError
-  deriving Repr
+  deriving DecidableEq, Repr
 
 /-- Python truthiness of `None` / `str`. -/
 def truthyStr : Option (List Char) → Bool
@@ -151,7 +151,7 @@ inductive Firing (V R : Type) where
   | lost (reason : R)
   /-- `defer.fail()` in `callRemote`: the message could not be constructed -/
   | constructFailed
-  deriving Repr
+  deriving DecidableEq, Repr
 
 inductive Fault where
   /-- `del self._pendingCalls[serial]` on an absent key -/
@@ -199,7 +199,7 @@ inductive Op (V R : Type) where
   | expire (tid : Nat)
   /-- `connectionLost(reason)` -/
   | lost (reason : R)
-  deriving Repr
+  deriving DecidableEq, Repr
 
 /-- `if timeout:` -/
 def truthyTimeout : Option Nat → Bool
@@ -274,7 +274,7 @@ def expireOp (s : St V R) (tid : Nat) : St V R :=
     | some _ =>
       fire { s with pending := dDel serial s.pending } tid (.timeOut C08Client.timeoutText.toList)
 
-/-- The loop of `connectionLost` over `self._pendingCalls.values()`. -/
+/-- The loop of `connectionLost` over `pending.values()` (the table as it was when the connection was lost). -/
 def lostLoop (reason : R) :
     List (Nat × Pending) → List (Nat × Nat) → List (Nat × Firing V R) →
       List (Nat × Nat) × List (Nat × Firing V R) × Option Fault
@@ -284,11 +284,13 @@ def lostLoop (reason : R) :
     | none => (ts, lg, some .alreadyCalled)
     | some ts' => lostLoop reason rest ts' (lg ++ [(p.did, .lost reason)])
 
-/-- The pending-call part of `connectionLost` (after the `busName is None` early return). -/
+/-- The pending-call part of `connectionLost` (after the `busName is None` early return, which only
+concerns the connect Deferred): `pending, self._pendingCalls = self._pendingCalls, {}` and then the
+loop over the table as it was - so the table is empty even if the loop were to raise. -/
 def lostOp (s : St V R) (reason : R) : St V R :=
   if !s.ready then s else
   match lostLoop reason s.pending s.timers s.log with
-  | (ts, lg, some f) => { s with timers := ts, log := lg, faults := s.faults ++ [f] }
+  | (ts, lg, some f) => { s with timers := ts, log := lg, pending := [], faults := s.faults ++ [f] }
   | (ts, lg, none) => { s with timers := ts, log := lg, pending := [] }
 
 def step (asStr : V → Option (List Char)) (s : St V R) : Op V R → St V R
@@ -311,7 +313,7 @@ inductive Outcome (V R : Type) where
   | timeOut (text : List Char)
   | lost (reason : R)
   | constructFailed
-  deriving Repr
+  deriving DecidableEq, Repr
 
 def outcome (rs : RetSig) : Firing V R → Outcome V R
   | .callback msg => .value (cvtReply msg rs)
@@ -329,5 +331,30 @@ def firingsOf (k : Nat) (lg : List (Nat × Firing V R)) : List (Firing V R) :=
 /-- `self.serial = DBusMessage._nextSerial; DBusMessage._nextSerial += 1`:
 returns the serial given to the message and the new counter. -/
 def allocSerial (counter : Nat) : Nat × Nat := (counter, counter + C08Client.serialStep)
+
+/-- What happens in the process, before serials are known: every constructed message takes the next
+value of the one process-wide counter - the calls of this connection, and any other message (replies
+and signals sent by exported objects, calls on other connections). -/
+inductive Ev (V R : Type) where
+  | call (expectReply : Bool) (timeout : Option Nat) (rs : RetSig)
+  /-- some other message is constructed (consumes a serial) -/
+  | otherMessage
+  /-- a `callRemote` whose construction raised, before or after the serial was taken -/
+  | callBad (rs : RetSig) (serialTaken : Bool)
+  | ret (replySerial : Nat) (msg : Reply V)
+  | err (replySerial : Nat) (name : List Char) (body : Option (List V))
+  | expire (tid : Nat)
+  | lost (reason : R)
+
+/-- The operations on this connection, each call carrying the serial the counter gave it. -/
+def assign {V R : Type} : Nat → List (Ev V R) → List (Op V R)
+  | _, [] => []
+  | c, .call er tmo rs :: t => .call (allocSerial c).1 er tmo rs :: assign (allocSerial c).2 t
+  | c, .otherMessage :: t => assign (allocSerial c).2 t
+  | c, .callBad rs taken :: t => .callBad rs :: assign (if taken then (allocSerial c).2 else c) t
+  | c, .ret rsn msg :: t => .ret rsn msg :: assign c t
+  | c, .err rsn name body :: t => .err rsn name body :: assign c t
+  | c, .expire tid :: t => .expire tid :: assign c t
+  | c, .lost r :: t => .lost r :: assign c t
 
 end Txdbus.Calls
